@@ -90,6 +90,10 @@ private:
     CompInfo      m_info;       // status of the computation
     // clang-format on
 
+#ifdef YIXUAN_SPECTRA_VERIF
+    friend struct ::Spectra::verif::Access;
+#endif
+
     // Move rvalue object to the container
     static std::vector<OpType> create_op_container(OpType&& rval)
     {
